@@ -278,6 +278,13 @@ func (s *streamConverter) restoreOutputs(isStream bool, to string, values map[st
 
 func convert(values map[string]any, convPairs map[string]streamConvertPair, isStream bool) error {
 	if !isStream {
+		// a nil value (of an interface type) is kept as the marker a streaming run writes for it: a
+		// resume in stream form must hand on one nil chunk, not a stream without chunks
+		for key, v := range values {
+			if v == nil {
+				values[key] = nilStreamValue{}
+			}
+		}
 		return nil
 	}
 	for key, v := range values {
